@@ -493,10 +493,13 @@ impl cosmwasm_std::Api for PermissiveApi {
     fn debug(&self, _: &str) {}
 }
 
+/// addresses that are prefixes of each other (c, cc, ccc) and that differ only in letter case (c / C, cc / cC)
+const PREFIX_WORLD_ADDRS: [&str; 5] = ["c", "cc", "ccc", "C", "cC"];
+
 struct PrefixAddresses;
 impl cw_multi_test::AddressGenerator for PrefixAddresses {
     fn contract_address(&self, _api: &dyn cosmwasm_std::Api, _storage: &mut dyn cosmwasm_std::Storage, _code_id: u64, instance_id: u64) -> cw_multi_test::error::AnyResult<Addr> {
-        Ok(Addr::unchecked("c".repeat(instance_id as usize + 1)))
+        Ok(Addr::unchecked(PREFIX_WORLD_ADDRS[instance_id as usize % PREFIX_WORLD_ADDRS.len()]))
     }
 }
 
@@ -514,16 +517,16 @@ fn c08_prefix_world(ctx: &Ctx, depth: usize) -> (u64, u64) {
             .build(cw_multi_test::no_init);
         let code = app.store_code(Box::new(super::puppet::Puppet { tag: 1 }));
         super::puppet::set_script(std::rc::Rc::new(Program { entry: Entry::WasmSudo { contract: String::new() }, root: 0, nodes: vec![Node::default()] }));
-        for i in 0..3 {
+        for i in 0..PREFIX_WORLD_ADDRS.len() {
             let a = app.instantiate_contract(code, Addr::unchecked("user"), &super::puppet::NodeMsg { n: 0 }, &[], "p", None).unwrap();
-            assert_eq!(a.as_str(), "c".repeat(i + 1));
+            assert_eq!(a.as_str(), PREFIX_WORLD_ADDRS[i]);
         }
         app
     };
-    let contracts = ["c", "cc", "ccc"];
+    let contracts = PREFIX_WORLD_ADDRS;
     let keys: Vec<&[u8]> = vec![b"k", b"ck", b"c", b"", b"cck", b"/k"];
     let mut ops: Vec<(usize, usize, bool)> = vec![];
-    for c in 0..3 {
+    for c in 0..contracts.len() {
         for k in 0..keys.len() {
             ops.push((c, k, true));
             ops.push((c, k, false));
@@ -547,7 +550,7 @@ fn c08_prefix_world(ctx: &Ctx, depth: usize) -> (u64, u64) {
     let mut transitions = 0u64;
     for sq in &seqs {
         let mut app = build();
-        let mut model: Vec<super::model::Map> = vec![Default::default(); 3];
+        let mut model: Vec<super::model::Map> = vec![Default::default(); contracts.len()];
         for oi in sq {
             let (c, k, set) = ops[*oi];
             let w = if set { WriteOp::Set(keys[k].to_vec(), format!("v{}", c).into_bytes()) } else { WriteOp::Remove(keys[k].to_vec()) };
@@ -675,7 +678,7 @@ pub fn run_c08(ctx: &Ctx) -> i32 {
         &outs,
         samples,
         json!({"operations": alphabet.len(), "keys": keys.iter().map(|k| show(k)).collect::<Vec<_>>(), "adversarial_keys_harvested_from_raw_state": adv.len(), "depth": 2,
-               "prefix_address_world": {"contracts": ["c", "cc", "ccc"], "keys": ["k", "ck", "c", "", "cck", "/k"], "write_sequences": pseq, "writes_executed_and_all_views_compared": ptrans},
+               "prefix_address_world": {"contracts": PREFIX_WORLD_ADDRS, "keys": ["k", "ck", "c", "", "cck", "/k"], "write_sequences": pseq, "writes_executed_and_all_views_compared": ptrans},
                "thorough_second_exploration": {"operations": alphabet3.len(), "keys": keys3.len(), "depth": 3},
                "views_compared": ["contract's own get/range at entry (trace)", "WasmQuery::Raw", "dump_wasm_raw", "App::contract_storage get + range"]}),
         vec!["main exploration: two contracts from the same code and one from another with default bech32 addresses; second world: a permissive Api and a custom AddressGenerator give the addresses c, cc, ccc (prefixes of each other)".into()],
